@@ -3,6 +3,7 @@ package crash
 import (
 	"bufio"
 	"bytes"
+	"database/sql"
 	"encoding/json"
 	"fmt"
 	"os"
@@ -14,6 +15,8 @@ import (
 	"time"
 
 	"verifharness/internal/kv"
+
+	_ "github.com/mattn/go-sqlite3" // the plain "sqlite3" driver, to hold a lock on the bucket's file from outside
 )
 
 var runSerial atomic.Uint64
@@ -24,6 +27,7 @@ type Run struct {
 	Strace      int // if > 0: kill at the N-th pwrite64 (strace injection) instead of a hook point
 	ExtKill     int // if > 0: external SIGKILL this many ms after the writer went idle
 	DelayReopen int // ms to wait before the bucket is reopened (lets a deadline pass while the bucket is closed)
+	LockedOpen  bool // before the real reopen, another process tries to open the bucket while its file is write-locked
 	Reader      ReaderArgs
 	Tmp         string
 }
@@ -36,6 +40,7 @@ type Outcome struct {
 	InFlightI int       `json:"inFlightI"`
 	Applied   string    `json:"applied"` // "n/a", "applied", "not-applied"
 	Killed    bool      `json:"killed"`
+	LockedOpenErr string `json:"lockedOpenErr,omitempty"` // how the open attempted while the file was locked failed
 	Clean     bool      `json:"clean"`
 	MaxAckCas uint64    `json:"maxAckCas"`
 	Reader    ReaderOut `json:"reader"`
@@ -198,6 +203,30 @@ func (r *Run) Execute() Outcome {
 		time.Sleep(time.Duration(r.DelayReopen) * time.Millisecond)
 	}
 	r.Reader.Dir, r.Reader.Name = dir, name
+	if r.LockedOpen {
+		// Somebody else (here: this supervisor, through the plain sqlite3 driver) holds the database's write lock for
+		// longer than rosmar's busy timeout. An OpenBucket in another process then fails - and must leave the bucket
+		// as it is: everything acknowledged before is still expected after the lock is released.
+		dbPath := filepath.Join(dir, name, "rosmar.sqlite3")
+		if lockDB, lerr := sql.Open("sqlite3", "file:"+dbPath+"?_txlock=immediate&_busy_timeout=2000"); lerr == nil {
+			if tx, terr := lockDB.Begin(); terr == nil {
+				probe := r.Reader
+				probe.Mode, probe.NewWrites, probe.WaitExp, probe.TryCreateNew = 2, 0, 0, false
+				pj, _ := json.Marshal(probe)
+				pcmd := exec.Command(exe, "crashreader", string(pj))
+				pout, _ := pcmd.Output()
+				var pr ReaderOut
+				if lines := strings.Split(strings.TrimSpace(string(pout)), "\n"); len(lines) > 0 {
+					_ = json.Unmarshal([]byte(lines[len(lines)-1]), &pr)
+				}
+				out.LockedOpenErr = pr.Err
+				_ = tx.Rollback()
+			} else {
+				out.LockedOpenErr = "supervisor could not lock: " + terr.Error()
+			}
+			_ = lockDB.Close()
+		}
+	}
 	r.Reader.Colls = 3
 	r.Reader.Keys = nil
 	for k := range keys {
